@@ -14,15 +14,15 @@ type optsCase struct {
 }
 
 var optsCases = []optsCase{
-	{`{ events(filter: {range: {from: 1}}) }`, nil, `events {"range":{"from":1,"to":9}}`, ""},
+	{`{ events(filter: {range: {from: 1}}) }`, nil, `events {"range":{"blank":"","eps":1e-7,"from":1,"off":false,"ratio":0.1234567891,"to":9,"zero":0}}`, ""},
 	{`{ events(filter: {since: "2020-01-02T03:04:05Z", range: {from: 2, to: 3}, tags: "a", subs: {from: 7}}) }`, nil,
-		`events {"range":{"from":2,"to":3},"since":"2020-01-02T03:04:05Z","subs":[{"from":7,"to":9}],"tags":["a"]}`, ""},
+		`events {"range":{"blank":"","eps":1e-7,"from":2,"off":false,"ratio":0.1234567891,"to":3,"zero":0},"since":"2020-01-02T03:04:05Z","subs":[{"blank":"","eps":1e-7,"from":7,"off":false,"ratio":0.1234567891,"to":9,"zero":0}],"tags":["a"]}`, ""},
 	{`query($f: Filter!) { events(filter: $f) }`, map[string]any{"f": map[string]any{"range": map[string]any{"from": int64(4)}, "opt": nil}},
-		`events {"range":{"from":4,"to":9}}`, ""},
+		`events {"range":{"blank":"","eps":1e-7,"from":4,"off":false,"ratio":0.1234567891,"to":9,"zero":0}}`, ""},
 	{`{ maybe }`, nil, `maybe null`, ""},
 	{`{ maybe(filter: null) }`, nil, `maybe null`, ""},
 	{`{ maybe(filter: {range: {from: 5}, opt: {from: 6, to: null}, subs: [{from: 1}, {from: 2, at: "2021-05-06T07:08:09Z"}]}) }`, nil,
-		`maybe {"opt":{"from":6},"range":{"from":5,"to":9},"subs":[{"from":1,"to":9},{"at":"2021-05-06T07:08:09Z","from":2,"to":9}]}`, ""},
+		`maybe {"opt":{"blank":"","eps":1e-7,"from":6,"off":false,"ratio":0.1234567891,"zero":0},"range":{"blank":"","eps":1e-7,"from":5,"off":false,"ratio":0.1234567891,"to":9,"zero":0},"subs":[{"blank":"","eps":1e-7,"from":1,"off":false,"ratio":0.1234567891,"to":9,"zero":0},{"at":"2021-05-06T07:08:09Z","blank":"","eps":1e-7,"from":2,"off":false,"ratio":0.1234567891,"to":9,"zero":0}]}`, ""},
 	// values gqlparser cannot judge (a custom scalar) that the Go-side coercion refuses: one error at the input field's path, the resolver is not called
 	{`{ events(filter: {since: "yesterday", range: {from: 1}}) }`, nil, "", "events.filter.since"},
 	{`query($f: Filter!) { events(filter: $f) }`, map[string]any{"f": map[string]any{"since": "nope", "range": map[string]any{"from": int64(1)}}}, "", "events.filter.since"},
@@ -44,6 +44,9 @@ var optsCases = []optsCase{
 func Harness_C02_options() {
 	c := optsCases[zzsym.Choice("case", len(optsCases))]
 	got := optsRun(c.query, c.vars)
+	for _, x := range got.seen {
+		zzsym.Event("seen", x)
+	}
 	zzsym.Assert(!got.rejected, "corpus annotation: the request passes validation and variable coercion")
 	zzsym.Assert(got.recovers == 0, "no panic of gqlgen's own while binding arguments")
 	if c.want != "" {
